@@ -18,6 +18,7 @@ package signaling_rpc_server
 //@   ensures t.seqno == old(t.seqno) && t.peerA == old(t.peerA) && t.peerB == old(t.peerB) && t.wait == nil
 //@   ensures old(t.wait) != nil ==> chanClosed[old(t.wait)]
 //@   ensures forall c ptr :: c != old(t.wait) ==> chanClosed[c] == old(chanClosed[c])
+//@   ensures forall c ptr :: old(chanClosed[c]) ==> chanClosed[c]
 //@ func (*sessionTracker).getWaitCh
 //@   modifies t
 //@   ensures t.seqno == old(t.seqno) && t.peerA == old(t.peerA) && t.peerB == old(t.peerB)
@@ -26,6 +27,7 @@ package signaling_rpc_server
 //@ func (*serverPeerTracker).broadcast
 //@   modifies p
 //@   ensures forall c ptr :: c != old(p.wait) ==> chanClosed[c] == old(chanClosed[c])
+//@   ensures forall c ptr :: old(chanClosed[c]) ==> chanClosed[c]
 //@   ensures p.listening == old(p.listening) && p.wantPeers == old(p.wantPeers) && p.listenNonce == old(p.listenNonce)
 //@ func (*serverPeerTracker).getWaitCh
 //@   modifies p
@@ -102,6 +104,8 @@ package signaling_rpc_server
 //@   ensures ret ==> !(pidStr in s.peers)
 //@   ensures !ret ==> ((pidStr in s.peers) <==> old(pidStr in s.peers)) && s.peers[pidStr] == old(s.peers[pidStr])
 //@   ensures forall p string trigger dom(s.peers, p) :: p != pidStr ==> ((p in s.peers) <==> old(p in s.peers)) && s.peers[p] == old(s.peers[p])
+//@   ensures forall c ptr :: !(old(pidStr in s.peers) && c == old(s.peers[pidStr].wait)) ==> chanClosed[c] == old(chanClosed[c])
+//@   ensures forall c ptr :: old(chanClosed[c]) ==> chanClosed[c]
 //@   ensures old(pidStr in s.peers) ==> old(s.peers[pidStr]).listening == old(s.peers[pidStr].listening) && old(s.peers[pidStr]).wantPeers == old(s.peers[pidStr].wantPeers) && old(s.peers[pidStr]).listenNonce == old(s.peers[pidStr].listenNonce)
 //@   ensures held(s.mtx)
 
@@ -149,6 +153,10 @@ package signaling_rpc_server
 //@   ensures ret ==> !(sess in s.sessions)
 //@   ensures !ret ==> ((sess in s.sessions) <==> old(sess in s.sessions)) && s.sessions[sess] == old(s.sessions[sess])
 //@   ensures forall k sessionKey trigger dom(s.sessions, k) :: k != sess ==> ((k in s.sessions) <==> old(k in s.sessions)) && s.sessions[k] == old(s.sessions[k])
+//@   ensures forall c ptr :: !(old(sess in s.sessions) && c == old(s.sessions[sess].wait)) ==> chanClosed[c] == old(chanClosed[c])
+//@   ensures forall c ptr :: old(chanClosed[c]) ==> chanClosed[c]
+//@   ensures ret ==> old(s.sessions[sess].wait) == nil || chanClosed[old(s.sessions[sess].wait)]
+//@   ensures !ret && old(sess in s.sessions) ==> old(s.sessions[sess]).wait == old(s.sessions[sess].wait)
 //@   ensures old(sess in s.sessions) ==> old(s.sessions[sess]).seqno == old(s.sessions[sess].seqno) && old(s.sessions[sess]).peerA == old(s.sessions[sess].peerA) && old(s.sessions[sess]).peerB == old(s.sessions[sess].peerB)
 //@   ensures held(s.mtx)
 
@@ -176,3 +184,25 @@ package signaling_rpc_server
 //@   loop 1 invariant chanClosed[waitCh] || ((localIsPeerA ==> (sess.peerB != nil ==> sessAnnounced[strm] == sess.seqno) && (sess.peerB == nil ==> sessAnnounced[strm] == 0)) && (!localIsPeerA ==> (sess.peerA != nil ==> sessAnnounced[strm] == sess.seqno) && (sess.peerA == nil ==> sessAnnounced[strm] == 0)))
 //@   cs Server.mtx ensures forall t *sessionTracker trigger t.wait :: old(isobj(t)) && (t.seqno != old(t.seqno) || t.peerA != old(t.peerA) || t.peerB != old(t.peerB) || t.wait != old(t.wait)) ==> old(t.wait) == nil || chanClosed[old(t.wait)]
 //@   assert at call invoke.Send: (istype(arg0.Body, ptr(signaling_rpc.SessionResponse_RecvMsg)) || istype(arg0.Body, ptr(signaling_rpc.SessionResponse_AckMsg)) || istype(arg0.Body, ptr(signaling_rpc.SessionResponse_ClearMsg))) ==> sessAnnounced[strm] == atlock(sess.seqno)
+
+// C20 (write loop): the only messages forwarded to the local peer are the pending message of this
+// call's own tracker, taken while this call is the attached local end and a partner is attached.
+//@   assert at call invoke.Send: istype(arg0.Body, ptr(signaling_rpc.SessionResponse_RecvMsg)) ==> unboxed(arg0.Body, ptr(signaling_rpc.SessionResponse_RecvMsg)).RecvMsg == atlock(ourPeerTkr.recv) && atlock((localIsPeerA ==> sess.peerA == ourPeerTkr && sess.peerB != nil) && (!localIsPeerA ==> sess.peerB == ourPeerTkr && sess.peerA != nil))
+
+// Cleanup of a Session call (deferred closure $1). If this call's tracker is still the attached end:
+// it is detached, the epoch moves on by one, the partner's pending message (if any) is dropped,
+// waiters are woken, the session tracker is released iff no end is attached, the want-entry is
+// withdrawn. Otherwise (the call was replaced) nothing is changed. Other sessions, other session
+// keys and other peers' entries are never touched.
+//@ func (*Server).Session$1
+//@   noframe
+//@   nosweep nil-deref
+//@   requires isobj(s) && isobj(sess) && isobj(ourPeerTkr) && isobj(dstPeer)
+//@   cs Server.mtx ensures forall t *sessionTracker trigger t.wait :: old(isobj(t)) && (t.seqno != old(t.seqno) || t.peerA != old(t.peerA) || t.peerB != old(t.peerB) || t.wait != old(t.wait)) ==> old(t.wait) == nil || chanClosed[old(t.wait)]
+//@   cs Server.mtx ensures forall t *sessionTracker trigger t.seqno :: old(isobj(t)) && t != sess ==> t.seqno == old(t.seqno) && t.peerA == old(t.peerA) && t.peerB == old(t.peerB)
+//@   cs Server.mtx ensures old((localIsPeerA && sess.peerA == ourPeerTkr) || (!localIsPeerA && sess.peerB == ourPeerTkr)) ==> sess.seqno != old(sess.seqno) && (old(sess.seqno) < 18446744073709551615 ==> sess.seqno == old(sess.seqno) + 1) && (localIsPeerA ==> sess.peerA == nil && sess.peerB == old(sess.peerB)) && (!localIsPeerA ==> sess.peerB == nil && sess.peerA == old(sess.peerA))
+//@   cs Server.mtx ensures !old((localIsPeerA && sess.peerA == ourPeerTkr) || (!localIsPeerA && sess.peerB == ourPeerTkr)) ==> sess.seqno == old(sess.seqno) && sess.peerA == old(sess.peerA) && sess.peerB == old(sess.peerB)
+//@   cs Server.mtx ensures forall t *sessionPeerTracker trigger t.recv :: old(isobj(t)) ==> t.recvClear == old(t.recvClear) && t.outAcked == old(t.outAcked) && (t.recv == old(t.recv) || t.recv == nil) && (t.recvSent == old(t.recvSent) || t.recvSent == nil)
+//@   cs Server.mtx ensures forall t *sessionPeerTracker trigger t.recv :: old(isobj(t)) && (t.recv != old(t.recv) || t.recvSent != old(t.recvSent)) ==> old((localIsPeerA && sess.peerA == ourPeerTkr && sess.peerB == t) || (!localIsPeerA && sess.peerB == ourPeerTkr && sess.peerA == t))
+//@   cs Server.mtx ensures forall k sessionKey trigger dom(self.sessions, k) :: k != sessKey ==> ((k in self.sessions) <==> old(k in self.sessions)) && self.sessions[k] == old(self.sessions[k])
+//@   cs Server.mtx ensures forall p string trigger dom(self.peers, p) :: p != dstPeerIDStr ==> ((p in self.peers) <==> old(p in self.peers)) && self.peers[p] == old(self.peers[p])
